@@ -54,6 +54,9 @@ CHECKS = {
  "C16": dict(cat="fault_enumeration", ref="3 (C16)", technique="torn-write enumeration over journalled generated workloads (append cut at 1, n/2, n-1 bytes; recover, write, reopen)",
    text="Every append to a WAL, manifest or CURRENT temp file of a generated workload is cut to 1, n/2, n-1 bytes (thorough: every length for n<=64 plus the header boundary); the image must recover to acknowledged(+in-flight) state with reuse_log_files on and off, accept 1-5 further writes (incl. a 40 kB one) and still contain them after a clean reopen with either setting.",
    note="Crash model as C02 plus one partially applied append."),
+ "C17": dict(cat="exploration", ref="4 (C17)", technique="generated multi-threaded open/close/destroy programs released by barriers on real files (flock), judged by an owner ledger",
+   text="2-6 threads run generated rounds of Open/Close/Destroy/Write on raindb's TmpFileSystem (real flock); all operations of a round start together. While a handle not being closed is alive every open and destroy must fail; without an owner at most one racing open succeeds (exactly one when no destroy/close races); owners re-read what they wrote and write a probe after every round; at the end the database opens with all acknowledged data (unless an unowned destroy ran), refuses destroy while open and is destroyed after close.",
+   note="Thread-level handles in one process (flock is per open file description, so this exercises the same exclusion as separate processes). Uses temp directories on the real filesystem."),
 }
 
 def main():
